@@ -268,6 +268,35 @@ impl DFAInternPool {
     }
 }
 
+#[cfg(feature = "verif")]
+impl DFA {
+    pub fn verif_input(&self, id: InpId) -> &Inp {
+        self.inputs.lookup(id)
+    }
+
+    pub fn verif_inputs(&self) -> impl Iterator<Item = (InpId, &Inp)> {
+        self.inputs.pairs()
+    }
+
+    pub fn verif_subdfa(&self, id: DFAId) -> &DFA {
+        self.subdfas.lookup(id)
+    }
+}
+
+#[cfg(feature = "verif")]
+impl InpId {
+    pub fn verif_index(&self) -> u32 {
+        self.0
+    }
+}
+
+#[cfg(feature = "verif")]
+impl DFAId {
+    pub fn verif_index(&self) -> usize {
+        self.0
+    }
+}
+
 // Reference:
 //  * The Dragon Book: 3.9.5 Converting a Regular Expression Directly to a DFA
 fn dfa_from_regex(
